@@ -196,6 +196,9 @@ class LPoly():
         '''
         round small coefficients down to zero
         '''
+        if self.iszero:
+            # the zero polynomial keeps its placeholder coefficient list [0]
+            return
         self.coefs[numpy.abs(self.coefs) < thresh] = 0
 
     def pos_half(self):
